@@ -54,3 +54,21 @@ package contracts
 //@   ensures n == min(len(x), len(y))
 //@   ensures forall i mathint :: {dst[i]} 0 <= i && i < n ==> dst[i] == old(x[i]) ^ old(y[i])
 //@   ensures forall i mathint :: {dst[i]} n <= i && i < len(dst) ==> dst[i] == old(dst[i])
+
+// time: instants are integers on one timeline, the zero Time is 0 (trusted model).
+//@ extern func (t time.Time) IsZero() (r bool)
+//@   pure
+//@   ensures r == (t == 0)
+//@ extern func time.Until(t time.Time) (r time.Duration)
+//@   modifies lastUntil
+//@   ensures r == lastUntil
+
+// net addresses: String/Network are pure functions of the address value (trusted)
+//@ extern func (a net.Addr) String() (s string)
+//@   pure
+//@ extern func (a net.Addr) Network() (s string)
+//@   pure
+//@ extern func (a *net.UDPAddr) String() (s string)
+//@   pure
+//@ extern func (a *net.UDPAddr) Network() (s string)
+//@   pure
